@@ -116,9 +116,9 @@ PROPS["C09"] = {
     "pkg": "c09", "level": "exploration",
     "jobs": {
         "quick": [{"name": "expiry", "run": "^TestExpiryHistories$", "checks": 48000, "shards": 8, "steps": 40},
-                  {"name": "binary", "run": "^TestBinaryExpiryConfig$", "checks": 48, "shards": 16, "binary": True, "shrinktime": "1s"}],
+                  {"name": "binary", "run": "^TestBinary", "checks": 48, "shards": 16, "binary": True, "shrinktime": "1s"}],
         "thorough": [{"name": "expiry", "run": "^TestExpiryHistories$", "checks": 1200000, "shards": 16, "steps": 60, "timeout": 1700},
-                     {"name": "binary", "run": "^TestBinaryExpiryConfig$", "checks": 1600, "shards": 16, "binary": True, "shrinktime": "1s", "timeout": 1700}],
+                     {"name": "binary", "run": "^TestBinary", "checks": 1600, "shards": 16, "binary": True, "shrinktime": "1s", "timeout": 1700}],
     },
     "assumptions": [
         "a datapoint's timestamp is the (injected) clock reading when it is received, as in production where both come from the wall clock",
@@ -144,8 +144,10 @@ PROPS["C04"] = {
 PROPS["C05"] = {
     "pkg": "c05", "level": "exploration",
     "jobs": {
-        "quick": [{"name": "datagram", "run": "^TestDatagramLinesIndependent$", "checks": 24000, "shards": 12}],
-        "thorough": [{"name": "datagram", "run": "^TestDatagramLinesIndependent$", "checks": 640000, "shards": 16, "timeout": 1700}],
+        "quick": [{"name": "datagram", "run": "^TestDatagramLinesIndependent$", "checks": 24000, "shards": 12},
+                  {"name": "udpqueue", "run": "^TestUDPQueuedDatagrams$", "checks": 1200, "shards": 4}],
+        "thorough": [{"name": "datagram", "run": "^TestDatagramLinesIndependent$", "checks": 640000, "shards": 16, "timeout": 1700},
+                     {"name": "udpqueue", "run": "^TestUDPQueuedDatagrams$", "checks": 80000, "shards": 16, "timeout": 1700}],
     },
     "assumptions": [
         "an empty line between two newlines counts as a rejected line (it is lexed and rejected); the empty remainder after a trailing newline is not a line",
@@ -312,12 +314,15 @@ PROPS["C17"] = {
             {"name": "payloads", "run": "^TestPayloadsCarryEverySeriesOnce$", "checks": 1920, "shards": 8},
             {"name": "relay", "run": "^TestRelayRoundTrip$", "checks": 1920, "shards": 4},
             {"name": "relay-events", "run": "^TestRelayEvents$", "checks": 1200, "shards": 2},
+            {"name": "relay-concurrent", "run": "^TestConcurrentRelayFlushes$", "checks": 600, "shards": 6},
         ],
         "thorough": [
             {"name": "probes", "kind": "plain", "run": "^TestProbe"},
             {"name": "payloads", "run": "^TestPayloadsCarryEverySeriesOnce$", "checks": 64000, "shards": 10, "timeout": 1700},
             {"name": "relay", "run": "^TestRelayRoundTrip$", "checks": 64000, "shards": 4, "timeout": 1700},
             {"name": "relay-events", "run": "^TestRelayEvents$", "checks": 40000, "shards": 2, "timeout": 1700},
+            {"name": "relay-concurrent", "run": "^TestConcurrentRelayFlushes$", "checks": 20000, "shards": 8, "timeout": 1700},
+            {"name": "relay-concurrent-race", "run": "^TestConcurrentRelayFlushes$", "checks": 1500, "shards": 4, "race": True, "timeout": 1700},
         ],
     },
     "assumptions": [
@@ -384,10 +389,12 @@ PROPS["C20"] = {
         "quick": [
             {"name": "ordering", "run": "^TestExtensionOrdering$", "checks": 192, "shards": 16},
             {"name": "startup", "run": "^TestStartupFailure$", "checks": 72, "shards": 4},
+            {"name": "startupkinds", "run": "^TestStartupFailureKinds$", "checks": 240, "shards": 4},
         ],
         "thorough": [
             {"name": "ordering", "run": "^TestExtensionOrdering$", "checks": 3200, "shards": 16, "timeout": 1700},
             {"name": "startup", "run": "^TestStartupFailure$", "checks": 400, "shards": 4, "timeout": 1700},
+            {"name": "startupkinds", "run": "^TestStartupFailureKinds$", "checks": 8000, "shards": 8, "timeout": 1700},
         ],
     },
     "assumptions": [
